@@ -10,6 +10,7 @@ import (
 	"github.com/jsightapi/jsight-schema-go-library/bytes"
 	"github.com/jsightapi/jsight-schema-go-library/errors"
 	"github.com/jsightapi/jsight-schema-go-library/fs"
+	"github.com/jsightapi/jsight-schema-go-library/internal/panics"
 	"github.com/jsightapi/jsight-schema-go-library/internal/sync"
 )
 
@@ -133,8 +134,18 @@ func (s *Schema) compile() error {
 	})
 }
 
-func (s *Schema) doCompile() error {
+func (s *Schema) doCompile() (err error) {
+	defer func() {
+		err = panics.Handle(recover(), err)
+	}()
+
 	content := s.file.Content()
+
+	if len(content) == 0 {
+		e := errors.NewDocumentError(s.file, errors.Format(errors.ErrRegexUnexpectedStart, "end of file"))
+		e.SetIndex(0)
+		return e
+	}
 
 	if content[0] != '/' {
 		return s.newDocumentError(errors.ErrRegexUnexpectedStart, 0, content[0])
